@@ -291,6 +291,20 @@ func (p *c13) RunCase(i int) *core.CaseResult {
 	if n > 1 {
 		bound = p.bound - 1
 	}
+	if p.tier == "thorough" {
+		// keep the thorough tier inside its deadline: the bound is lowered by one for harnesses in
+		// which a query spawns goroutines of its own (free switches at thread exits multiply the
+		// space) and for triples
+		heavy := 0
+		for _, q := range c.qs {
+			if nm := c13Queries[q].name; strings.HasPrefix(nm, "parallel") || nm == "async" || nm == "spinasync" {
+				heavy++
+			}
+		}
+		if n > 1 && heavy > 0 || n > 2 {
+			bound = 1
+		}
+	}
 	e.Explore(bound)
 	st := &e.Stats
 	r.Execs += st.Execs
